@@ -111,7 +111,7 @@ fn source_files(seed: u64, case: &str, with_empty: bool, with_sig: bool, edge: b
         let name: &'static str = Box::leak(format!("sp\\s{k}.bin").into_boxed_str());
         v.push(SrcFile { name, data: d, comp: cflags::ZLIB, enc: false, fix: false });
     }
-    if thorough() {
+    if thorough() && !with_empty && !with_sig && !edge && pow == 0 {
         let mut d: Vec<u8> = (0..(128 * 1024 + 1)).map(|_| 1 + rng.below(255) as u8).collect();
         d.extend(std::iter::repeat(0u8).take(5000));
         v.push(SrcFile { name: "sp\\lit128k.bin", data: d, comp: cflags::ZLIB, enc: false, fix: false });
@@ -154,7 +154,7 @@ fn main() {
     let scratch = Scratch::new("c07");
     // traces are written in case order whatever the completion order of the worker threads
     let blocks: std::sync::Mutex<Vec<Option<Vec<Value>>>> = std::sync::Mutex::new(vec![None; cases.len()]);
-    par_for(cases.len(), ncpu().min(8), |ci| {
+    par_for(cases.len(), ncpu().min(12), |ci| {
         let c = &cases[ci];
         let src = &c["src"];
         let o = &c["opts"];
